@@ -135,7 +135,16 @@ func runCCrash(r *verifsim.Run) {
 	}
 	crashEvery := r.OneOf(40, 150, 600)
 	if r.Tier == "thorough" {
-		crashEvery = r.OneOf(5, 20, 80)
+		crashEvery = r.OneOf(1, 5, 20, 80)
+		if crashEvery == 1 {
+			// every crash point of a (shortened) scenario is enumerated
+			for _, cn := range sc.Conns {
+				if len(cn.Ev) > 14 {
+					cn.Ev = cn.Ev[:14]
+				}
+			}
+			r.Probe("scenario-with-every-crash-point-enumerated")
+		}
 	}
 	seen := map[string]int64{}
 	nCrash, nObs := 0, 0
